@@ -67,13 +67,13 @@ def store_jobs(prop, tier, seed):
         jobs.append(mc_job('mc_core', 'core', maxanns=2, timeout=3000))                               # ~2e4 states (maxanns=3: 4e5 states, 11 min)
         jobs.append(mc_job('mc_core_m', 'core', maxanns=2, size='m', MaxData=1, MaxKeys=1, timeout=3000))    # ~4e4 states
         jobs.append(mc_job('mc_fail', 'fail', maxanns=2))
-        jobs += [gen_job('core_p1', 'core', 1, depth=3, style=style),
-                 gen_job('complex_p1', 'complex', 1, depth=3, style=style),
-                 gen_job('complex_p2', 'complex', 2, depth=3, style=(style + 1) % 5),
+        jobs += [gen_job('core_p1', 'core', 1, depth=3, style=style, sample_mod=4),
+                 gen_job('complex_p1', 'complex', 1, depth=3, style=style, sample_mod=4),
+                 gen_job('complex_p2', 'complex', 2, depth=3, style=(style + 1) % 5, sample_mod=4),
                  gen_job('complex_p2r', 'complex', 2, depth=2, style=(style + 1) % 5, reads=light),
-                 gen_job('remove_p4', 'remove', 4, depth=5, style=style, sample_mod=4),
+                 gen_job('remove_p4', 'remove', 4, depth=5, style=style, sample_mod=10),
                  gen_job('remove_p4r', 'remove', 4, depth=3, style=style, reads=light),
-                 gen_job('remove_p3', 'remove', 3, depth=5, style=(style + 1) % 5, sample_mod=4),
+                 gen_job('remove_p3', 'remove', 3, depth=5, style=(style + 1) % 5, sample_mod=10),
                  gen_job('remove_p5', 'remove', 5, depth=3, style=(style + 1) % 5, reads=light, **big),
                  gen_job('remove_p6', 'remove', 6, depth=3, style=(style + 2) % 5, reads=light, **big),
                  gen_job('all_p3', 'all', 3, depth=2, style=(style + 1) % 5),
